@@ -725,9 +725,24 @@ def gen_c08(repo="/repo"):
             errors.append(f"{name}: {e}")
             out.append(f"(* UNSUPPORTED {name}: {str(e).replace('*)', '* )')} *)\n")
 
-    BLK = ("FilterbankBlock", "self.__class__")
-    bsite("block_pad_samples", BB, "pad_samples", {"nsamps_final": "Z"}, "container", ctor={"classes": BLK, "data": "data_pad"})
-    bsite("block_downsample", FBk, "downsample", {"ffactor": "Z", "tfactor": "Z"}, "container", ctor={"classes": BLK, "data": "new_ar"})
+    BLK = ("FilterbankBlock", "self.__class__", "self._new_like")
+    bsite("block_pad_samples", BB, "pad_samples", {"nsamps_final": "Z", "offset": "Z"}, "container", ctor={"classes": BLK, "data": "data_pad"})
+    bsite("block_downsample", FBk, "downsample", {"ffactor": "Z", "tfactor": "Z", "blk_dm": "Q"}, "container",
+          ctor={"classes": BLK, "data": "new_ar", "dm": True}, ext={"self.dm": ("blk_dm", "Q")})
+    # BaseBlock.normalise / pad_samples build their result through self._new_like: FilterbankBlock's must hand the block's own DM over
+    try:
+        nl = [ast.unparse(s) for s in _meth(FBk, "_new_like").body if not (isinstance(s, ast.Expr) and isinstance(s.value, ast.Constant))]
+        if nl != ["return FilterbankBlock(data, header, self.dm)"]:
+            raise Unsupported("FilterbankBlock._new_like is not `return FilterbankBlock(data, header, self.dm)`: " + "; ".join(nl))
+        for mname in ("normalise", "pad_samples"):
+            rets = [n for n in ast.walk(_meth(BB, mname)) if isinstance(n, ast.Return)]
+            if len(rets) != 1 or not (isinstance(rets[0].value, ast.Call) and ast.unparse(rets[0].value.func) == "self._new_like"):
+                raise Unsupported(f"BaseBlock.{mname} no longer returns self._new_like(...)")
+        out.append("(* FilterbankBlock._new_like(data, header) = FilterbankBlock(data, header, self.dm): the DM attribute of the block returned by\n"
+                   "   BaseBlock.normalise / pad_samples *)\nDefinition cdm_block_new_like (blk_dm : Q) : Q := blk_dm.\n")
+    except Unsupported as e:
+        errors.append(f"block_new_like: {e}")
+        out.append(f"(* UNSUPPORTED block_new_like: {str(e).replace('*)', '* )')} *)\n")
     bsite("block_get_tim", FBk, "get_tim", {"blk_dm": "Q"}, "container", ctor={"classes": ("TimeSeries",), "data": "ts"},
           ext={"self.dm": ("blk_dm", "Q")})
     bsite("block_dedisperse", FBk, "dedisperse", {"dm": "Q", "out_nsamps": "Z"}, "container",
